@@ -252,7 +252,7 @@ TrGetUnsatCore ==
                 IF CoreCurrent(Ev.core)
                 THEN If(Ev.mon /\ ~CoreUnsat(Ev.core, Ev.h), V("C06", [m |-> "core with unnamed assertions is satisfiable"])) \cup
                      If(Ev.mon /\ opts.mincores = "true" /\ CoreNoRepeat(Ev.core) /\ ~CoreIrreducible(Ev.core, Ev.hm),
-                        V("C07", [m |-> "a core member is redundant"]))
+                        V("C07", [m |-> "a core member is redundant", members |-> RedundantMembers(Ev.core, Ev.hm)]))
                 ELSE {} )
 
 \* get-interpolants: C08, C09
